@@ -5,6 +5,7 @@
 package main
 
 import (
+	"errors"
 	"fmt"
 	"strings"
 
@@ -19,7 +20,7 @@ import (
 	f1testing "github.com/form3tech-oss/f1/v2/pkg/f1/testing"
 )
 
-var behaviours = []string{"pass", "Fail", "FailNow", "panic", "Require-assertion", "FailNow-in-timed-stage", "panic-in-timed-stage"}
+var behaviours = []string{"pass", "Fail", "FailNow", "panic", "panic(error)", "Require-assertion", "FailNow-in-timed-stage", "panic-in-timed-stage", "runtime-error"}
 
 func act(t *f1testing.T, b string) {
 	switch b {
@@ -29,6 +30,11 @@ func act(t *f1testing.T, b string) {
 		t.FailNow()
 	case "panic":
 		panic("component panics")
+	case "panic(error)":
+		panic(errors.New("component panics"))
+	case "runtime-error":
+		var m map[string]int
+		m["x"] = 1
 	case "Require-assertion":
 		t.Require().True(false)
 	case "FailNow-in-timed-stage":
@@ -193,9 +199,9 @@ func classify(got, want []string) string {
 
 func suites(tier string) []hlib.Suite {
 	if tier == "quick" {
-		return []hlib.Suite{suite(1, 2, 7), suite(3, 3, 5)}
+		return []hlib.Suite{suite(1, 2, 9), suite(3, 3, 5)}
 	}
-	return []hlib.Suite{suite(1, 3, 7), suite(4, 4, 4)}
+	return []hlib.Suite{suite(1, 3, 9), suite(4, 4, 5)}
 }
 
 func main() { hlib.EnumMain("C20", suites) } // hlib initialises the process-wide metrics instance T.Time needs
